@@ -147,6 +147,24 @@ Theorem C05_reestablish_adjacent_only : forall secret point pub point_eqb (s : s
                          (e = SignCounterparty (cp_next s) /\ nl = ncp - 1)).
 Proof. exact reest_resumes_only_adjacent. Qed.
 
+(** ** A statement that does NOT hold (known finding C05-F1; see design/C05.md)
+
+    "The node signs a counterparty commitment only if it records it as outstanding" is refuted by a
+    concrete reachable state and channel_reestablish: not awaiting a revoke_and_ack, the peer claims
+    next_local_commitment_number = number of the last commitment_signed it was sent; the node signs
+    the next, never-sent number [cp_next] and still does not consider itself awaiting a revocation.
+    The same input was replayed on the unmodified implementation (h_reest_probe): it signs that
+    commitment and issues no ChannelMonitorUpdate for it. *)
+Theorem C05_unrecorded_counterparty_commitment_refuted :
+  exists (ops : list (op Z Z)) (nl nr : Z),
+    let '(s, log) := run Z Z (fun x => x) Z.eqb (init Z 100 101) (init_log Z Z 100 101) ops in
+    let '(s', evs) := step Z Z (fun x => x) Z.eqb s (ORecvReest nl nr SecMatch) in
+    closed s = false /\ awaiting_rr s = false /\ disconnected s = true /\
+    ~ In (SignCounterparty (cp_next s)) log /\
+    evs = [SignCounterparty (cp_next s)] /\
+    closed s' = false /\ awaiting_rr s' = false /\ disconnected s' = false /\ cp_next s' = cp_next s.
+Proof. exact unrecorded_counterparty_commitment_witness. Qed.
+
 (** ** Non-vacuity *)
 
 (** BOLT 3 appendix D vectors through the Gallina SHA-256: the model computes real secrets. *)
